@@ -934,6 +934,9 @@ func (schema *Schema) validate(ctx context.Context, stack []*Schema) ([]*Schema,
 	}
 
 	for _, item := range schema.OneOf {
+		if item == nil {
+			return stack, errors.New("oneOf must not contain null")
+		}
 		v := item.Value
 		if v == nil {
 			return stack, foundUnresolvedRef(item.Ref)
@@ -946,6 +949,9 @@ func (schema *Schema) validate(ctx context.Context, stack []*Schema) ([]*Schema,
 	}
 
 	for _, item := range schema.AnyOf {
+		if item == nil {
+			return stack, errors.New("anyOf must not contain null")
+		}
 		v := item.Value
 		if v == nil {
 			return stack, foundUnresolvedRef(item.Ref)
@@ -958,6 +964,9 @@ func (schema *Schema) validate(ctx context.Context, stack []*Schema) ([]*Schema,
 	}
 
 	for _, item := range schema.AllOf {
+		if item == nil {
+			return stack, errors.New("allOf must not contain null")
+		}
 		v := item.Value
 		if v == nil {
 			return stack, foundUnresolvedRef(item.Ref)
